@@ -230,7 +230,7 @@ package yqlib
 //@   props C02 C03 C07 C16 C11
 //@   requires n != nil
 //@   ensures @fresh-copy result != nil && fresh(result) && sameScalarAttrs(result, n) && result.IsMapKey == n.IsMapKey && result.Parent == n.Parent
-//@   ensures @key-copied implies(n.Key == nil, result.Key == nil) && implies(n.Key != nil, result.Key != nil && fresh(result.Key) && result.Key.Value == n.Key.Value && result.Key.Tag == n.Key.Tag && result.Key.Kind == n.Key.Kind)
+//@   ensures @key-copied {C02,C03,C07,C16} implies(n.Key == nil, result.Key == nil) && implies(n.Key != nil, result.Key != nil && fresh(result.Key) && result.Key.Value == n.Key.Value && result.Key.Tag == n.Key.Tag && result.Key.Kind == n.Key.Kind)
 //@   ensures @content-length len(result.Content) == ite(cloneContent, len(n.Content), 0) && freshSlice(result.Content)
 //@   ensures @children-fresh forall(i, 0, len(result.Content), result.Content[i] != nil && fresh(result.Content[i]) && result.Content[i].Parent == result)
 
@@ -238,7 +238,7 @@ package yqlib
 //@   props C02 C03 C07 C16 C11
 //@   requires n != nil
 //@   ensures @fresh-copy result != nil && fresh(result) && sameScalarAttrs(result, n) && result.IsMapKey == n.IsMapKey && result.Parent == n.Parent
-//@   ensures @key-copied implies(n.Key == nil, result.Key == nil) && implies(n.Key != nil, result.Key != nil && fresh(result.Key) && result.Key.Value == n.Key.Value && result.Key.Tag == n.Key.Tag && result.Key.Kind == n.Key.Kind)
+//@   ensures @key-copied {C02,C03,C07,C16} implies(n.Key == nil, result.Key == nil) && implies(n.Key != nil, result.Key != nil && fresh(result.Key) && result.Key.Value == n.Key.Value && result.Key.Tag == n.Key.Tag && result.Key.Kind == n.Key.Kind)
 //@   ensures @content-length len(result.Content) == len(n.Content) && freshSlice(result.Content)
 //@   ensures @children-fresh forall(i, 0, len(result.Content), result.Content[i] != nil && fresh(result.Content[i]) && result.Content[i].Parent == result)
 
@@ -330,6 +330,7 @@ package yqlib
 //@ func (*CandidateNode).GetDocument
 //@   props C10 C11
 //@   requires n != nil
+//@   ensures @root-value implies(n.Parent == nil, result == n.document)
 
 //@ func (*CandidateNode).GetFilename
 //@   props C10 C11
@@ -716,3 +717,43 @@ package yqlib
 //@   ensures @failed-evaluation-leaves-target implies(!evaluatedSuccessfully, targetState == old(targetState) && targetMode == old(targetMode) && result == nil)
 //@   ensures @success-means-complete implies(evaluatedSuccessfully && result == nil, targetState == 1)
 //@   ensures @failure-leaves-target implies(result != nil, targetState == old(targetState))
+
+// ---------------------------------------------------------------------------------------------
+// printer.go (C19 -e bookkeeping, C10 separators)
+
+// assumed: GetDocument / GetFileIndex return the provenance recorded at the root (spec/doc.smt2)
+//@ func invoke Encoder.Encode
+//@   trusted
+
+//@ func invoke Encoder.CanHandleAliases
+//@   trusted
+
+//@ func invoke PrinterWriter.GetWriter
+//@   trusted
+//@   ensures implies(result1 == nil, result0 != nil)
+
+//@ pred falsyNode(n) = n.Tag == "!!null" || (n.Tag == "!!bool" && !truthyText(n.Value))
+
+//@ func (*resultsPrinter).printNode
+//@   props C19 C11
+//@   requires p != nil && node != nil && p.encoder != nil
+//@   modifies p.printedMatches
+//@   ensures @matches-accumulate p.printedMatches == (old(p.printedMatches) || !falsyNode(node))
+//@   replay
+//@     p := &resultsPrinter{encoder: NewYamlEncoder(ConfiguredYamlPreferences), printedMatches: $bool(p.printedMatches)}
+//@     // the solver's text is arbitrary (EqualFold is uninterpreted): for a boolean, try the spellings YAML resolves to !!bool
+//@     vals := []string{$str(node.Value)}
+//@     if $str(node.Tag) == "!!bool" { vals = append(vals, "false", "False", "FALSE", "true", "True") }
+//@     for _, val := range vals {
+//@       p.printedMatches = $bool(p.printedMatches)
+//@       node := &CandidateNode{Kind: ScalarNode, Tag: $str(node.Tag), Value: val}
+//@       before := p.printedMatches
+//@       _ = p.printNode(node, io.Discard)
+//@       falsy := node.Tag == "!!null" || (node.Tag == "!!bool" && !isTruthyNode(node))
+//@       if p.printedMatches != (before || !falsy) { t.Fatalf("printNode(%s %q): printedMatches=%v, but the result is falsy=%v (before=%v)", node.Tag, node.Value, p.printedMatches, falsy, before) }
+//@     }
+
+//@ func (*resultsPrinter).PrintedAnything
+//@   props C19 C11
+//@   requires p != nil
+//@   ensures result == p.printedMatches
